@@ -251,6 +251,12 @@ def run(ctx):
     ctx.prove()
     from props import genreg
     genreg.steps(ctx, ("seqenum",))      # fixing rules / enumeration regenerated from the source (C18_seq_gen)
+    import translate_seqcons as T        # constraint / objective builders regenerated from the source (C07_gen)
+    ctx.gen_step("seqcons", T.translate, "C07_gen",
+                 "harness/translate_seqcons.py + translate_enumcore.py + translate_seqenum.py (ast -> Gallina printer for "
+                 "build_objective, build_quadratic_constraints, quadratic_constraint_logic, build_linear_constraints, "
+                 "reset_build_flags, get_objective_data, get_constraint_data of SequenceBasedRoutingProblem; meaning of the "
+                 "emitted combinators: coq/theories/PySeqCons.v, PySeq.v, PyEnumCore.v)")
     rng = ctx.rng
     n_cases = 220 if ctx.quick else 2500
     limit_n = 14 if ctx.quick else 16
